@@ -272,6 +272,54 @@ theorem fill_keeps_values (lim : Option Nat) (m : Method) (f g : Frame) (hm : m 
       exact ⟨rfl, names_map _, mapCols_keeps _ f fun c hc i v hv => ffillTail_keep _ _ _ _ hs (hr c hc).symm i v hv⟩
     · cases h
 
+/-- the methods that never look at labels (a number, ffill, bfill): the same, for ANY index (decreasing, shuffled, repeated
+labels) and any column lengths - the hypothesis `f.Sorted` of `fill_keeps_values` is needed by 'ffill_na' / 'ffill_0' only -/
+theorem fill_keeps_values_any_index (lim : Option Nat) (m : Method) (f g : Frame)
+    (hm : m = .ffill ∨ m = .bfill ∨ ∃ c, m = .const c) (h : step lim f m = .ok g) :
+    g.idx = f.idx ∧ g.names = f.names ∧ ∀ j i v, cell f j i = some (some v) → cell g j i = some (some v) := by
+  have names_map : ∀ k : Col → Col, (f.mapCols k).names = f.names := fun k => by
+    simp [Frame.names, Frame.mapCols, List.map_map, Function.comp_def]
+  rcases hm with rfl | rfl | ⟨c, rfl⟩
+  · simp only [step] at h; split at h
+    · cases h; exact ⟨rfl, names_map _, mapCols_keeps _ f fun _ _ i v hv => ffillAux_keep _ _ _ _ i v hv⟩
+    · cases h
+  · simp only [step] at h; split at h
+    · cases h; exact ⟨rfl, names_map _, mapCols_keeps _ f fun _ _ i v hv => bfill_keep _ _ i v hv⟩
+    · cases h
+  · simp only [step] at h; split at h
+    · cases h; exact ⟨rfl, names_map _, mapCols_keeps _ f fun _ _ i v hv => fillConst_keep _ _ _ i v hv⟩
+    · cases h
+
+/-- ... and for a LIST of such methods -/
+theorem fillna_keeps_any_index (ms : List Method) (lim : Option Nat) (f g : Frame)
+    (hms : ∀ m ∈ ms, m = .ffill ∨ m = .bfill ∨ ∃ c, m = .const c) (h : fillna ms lim f = .ok g) :
+    g.idx = f.idx ∧ g.names = f.names ∧ ∀ j i v, cell f j i = some (some v) → cell g j i = some (some v) := by
+  induction ms generalizing f with
+  | nil => simp [fillna, List.foldlM, pure, Except.pure] at h; subst h; exact ⟨rfl, rfl, fun _ _ _ h => h⟩
+  | cons m ms ih =>
+    rw [seq_cons] at h
+    cases h1 : step lim f m with
+    | error e => rw [h1] at h; cases h
+    | ok f1 =>
+      rw [h1] at h
+      obtain ⟨a1, a2, a3⟩ := fill_keeps_values_any_index lim m f f1 (hms m (by simp)) h1
+      obtain ⟨b1, b2, b3⟩ := ih f1 (fun m' hm' => hms m' (by simp [hm'])) h
+      exact ⟨b1.trans a1, b2.trans a2, fun j i v hv => b3 j i v (a3 j i v hv)⟩
+
+/-- **the sortedness hypothesis is needed**: on a decreasing index 'ffill_0' overwrites a value - `res[res.index > last_valid] = 0`
+compares LABELS, and the rows whose label is later than the last valid row's label stand BEFORE it.  The real code does the same
+(`df_fillna(pd.Series([2., 1., nan], [d3, d2, d1]), 'ffill_0')` is `[0, 1, 1]`).  The property's quantifier ranges over values and
+NaN patterns, not over index orders; the strictly increasing index is a declared assumption of this check (`ASSUMPTIONS`). -/
+theorem ffill_tail_needs_sorted : ∃ (idx : List Int) (xs : Col) (i : Nat) (v : Int), idx.length = xs.length ∧
+    xs[i]? = some (some v) ∧ (ffillTail (some 0) Option.none idx xs)[i]? ≠ some (some v) :=
+  ⟨[3, 2, 1], [some 2, some 1, Option.none], 0, 2, by decide⟩
+
+/-- the same at frame level: without `f.Sorted` the conclusion of `fill_keeps_values` fails for 'ffill_0' -/
+theorem fill_keeps_values_needs_sorted : ∃ (f g : Frame) (v : Int), f.Rect ∧ step Option.none f .ffill0 = .ok g ∧
+    cell f 0 0 = some (some v) ∧ cell g 0 0 ≠ some (some v) :=
+  ⟨{ idx := [3, 2, 1], cols := [("a", [some 2, some 1, Option.none])] },
+   { idx := [3, 2, 1], cols := [("a", [some 0, some 1, some 1])] }, 2, by decide, rfl, by decide, by decide⟩
+
 /-- every step, hence every method list, keeps the index strictly increasing and the frame rectangular -/
 theorem fillna_wellformed (ms : List Method) (lim : Option Nat) (f g : Frame) (hs : f.Sorted) (hr : f.Rect)
     (h : fillna ms lim f = .ok g) : g.Sorted ∧ g.Rect := by
@@ -426,7 +474,7 @@ theorem array_agrees (ms : List Method) (lim : Option Nat) (f : Frame) (hs : f.S
     · show Except.ok _ = Except.ok _
       rw [(show Same _ _ from h).vals]
 
-/-- the same for the function `nona` (arrays ignore `edge`): the array result is the values of the pandas result -/
+/-- the same for the function `nona` with `edge = None`: the array result is the values of the pandas result (every `edge`: `nona_edge_array_agrees`) -/
 theorem nona_array_agrees (f g : Frame) (hs : f.Sorted) (hr : f.Rect) (hne : f.cols ≠ [])
     (h : nona Option.none f = .ok g) : nonaArr f.vals = g.vals := by
   have hsame := same_ofArr f hs hr hne
@@ -434,7 +482,69 @@ theorem nona_array_agrees (f g : Frame) (hs : f.Sorted) (hr : f.Rect) (hne : f.c
   unfold nonaArr
   rw [hsame.rowValid.symm, hsame.nrows.symm, vals_gather, vals_gather, vals_ofArr]
 
+/-- **nona_edge_array_agrees** - the clause "given a numpy array the result equals the values of the result for the
+corresponding Series/DataFrame" for `nona(x, edge)`, every `edge`: the array is cut by POSITION (`nonaArrE`: `take` / `drop` at
+the last / first row holding a value), the pandas object by LABEL (`nona`: `df_slice(df, ub = last surviving label, '[]')`);
+over a strictly increasing index the two agree (errors too).  True of the code since repo fix C12-E1; before it the array
+ignored `edge` (`nona_edge_array_ignored` below is that behaviour). -/
+theorem nona_edge_array_agrees (e : Option Int) (f : Frame) (hs : f.Sorted) (hr : f.Rect) (hne : f.cols ≠ []) :
+    nonaArrE e f.vals = (nona e f).map Frame.vals := by
+  have hsame := same_ofArr f hs hr hne
+  have hV : (List.range (ofArr f.vals).nrows).filter (ofArr f.vals).rowValid = (List.range f.nrows).filter f.rowValid := by
+    rw [hsame.rowValid.symm, hsame.nrows.symm]
+  have h0 : nonaArr f.vals = (f.gather ((List.range f.nrows).filter f.rowValid)).vals :=
+    nona_array_agrees f _ hs hr hne rfl
+  cases e with
+  | none => simp only [nonaArrE, nona]; rw [h0]; rfl
+  | some e =>
+    by_cases hV0 : (List.range f.nrows).filter f.rowValid = []
+    · simp only [nonaArrE, nona, hV, hV0, h0]; simp [Frame.gather]; rfl
+    · have hemp : (f.gather ((List.range f.nrows).filter f.rowValid)).idx.isEmpty = false := by simp [Frame.gather, hV0]
+      have hemp' : ((List.range f.nrows).filter f.rowValid).isEmpty = false := by simpa using hV0
+      obtain ⟨hq1, hq2, hq3⟩ := Frame.getLast_filter_range f.nrows f.rowValid hV0
+      generalize hp : ((List.range f.nrows).filter f.rowValid).getLast hV0 = p at hq1 hq2 hq3
+      have hlast : ((List.range f.nrows).filter f.rowValid).getLastD 0 = p := by
+        rw [List.getLastD_eq_getLast?, List.getLast?_eq_some_getLast hV0, hp]; rfl
+      have hub : ((f.gather ((List.range f.nrows).filter f.rowValid)).idx).getLastD 0 = f.idx.getD p 0 := by
+        simp only [Frame.gather, List.getLastD_eq_getLast?, List.getLast?_map, List.getLast?_eq_some_getLast hV0, hp]
+        rfl
+      obtain ⟨p0, tl, hcons⟩ : ∃ p0 tl, (List.range f.nrows).filter f.rowValid = p0 :: tl := by
+        cases hl : (List.range f.nrows).filter f.rowValid with
+        | nil => exact absurd hl hV0
+        | cons a tl => exact ⟨a, tl, rfl⟩
+      have hp0 : p0 < f.nrows := by
+        have : p0 ∈ (List.range f.nrows).filter f.rowValid := by rw [hcons]; simp
+        simpa using (List.mem_filter.mp this).1
+      have hlb : ((f.gather ((List.range f.nrows).filter f.rowValid)).idx).headD 0 = f.idx.getD p0 0 := by
+        simp [Frame.gather, hcons]
+      have hhead : ((List.range f.nrows).filter f.rowValid).headD 0 = p0 := by simp [hcons]
+      simp only [nonaArrE, nona, hV, hemp, hemp', hlast, hub, hlb, hhead]
+      by_cases h1 : e = 1
+      · subst h1
+        simp only [beq_self_eq_true, if_true, Bool.false_eq_true, if_false]
+        rw [Frame.filter_label_le f hs p hq1]
+        simp only [Except.map]
+        rw [Frame.vals_gather_take f hr]
+      · by_cases h2 : e = -1
+        · subst h2
+          simp only [show ((-1 : Int) == 1) = false from rfl, beq_self_eq_true, if_true, Bool.false_eq_true, if_false]
+          rw [Frame.filter_label_ge f hs p0 hp0]
+          simp only [Except.map]
+          rw [Frame.vals_gather_drop f hr]
+        · simp [h1, h2]; rfl
+
 /-! ### non-vacuity and evaluation checks -/
+
+/-- `nona_edge_array_agrees` on an array with a leading, an interior and a trailing NaN, both edges; and the behaviour
+before the fix (`nonaArr`: the interior NaN goes as well) differs from the pandas values - the witness of finding C12-E1 -/
+example : let f : Frame := { idx := [3, 5, 9, 10, 12], cols := [("a", [Option.none, some 1, Option.none, some 5, Option.none])] }
+    f.Sorted ∧ f.Rect ∧ f.cols ≠ [] ∧
+    (nonaArrE (some 1) f.vals).toOption = some [[Option.none, some 1, Option.none, some 5]] ∧
+    (nonaArrE (some (-1)) f.vals).toOption = some [[some 1, Option.none, some 5, Option.none]] ∧
+    (nona (some (-1)) f).toOption.map Frame.vals = some [[some 1, Option.none, some 5, Option.none]] := by decide
+theorem nona_edge_array_ignored : ∃ f : Frame, f.Sorted ∧ f.Rect ∧ f.cols ≠ [] ∧
+    (nona (some (-1)) f).toOption.map Frame.vals ≠ some (nonaArr f.vals) :=
+  ⟨{ idx := [3, 5, 9, 10, 12], cols := [("a", [Option.none, some 1, Option.none, some 5, Option.none])] }, by decide⟩
 
 example : ffill (some 1) [Option.none, some 1, Option.none, Option.none, some 5, Option.none] =
     [Option.none, some 1, some 1, Option.none, some 5, some 5] := by decide
